@@ -18,6 +18,12 @@ package resolver
 //@   assert at store resolver.resolveState.depth#1: value == rs.depth
 //@   assert at store resolver.resolveState.depth#2: rs.depth > -9223372036854775808 ==> value < rs.depth
 //@   assert at call (*middleware/resolver.Resolver).resolve#3: arg2 == rs && rs.depth > 0
+//@   note C07: nothing from a referral is used (glue, NS-address lookups, cached descent, delegation cache) unless validReferral accepted it
+//@   assert at call (*middleware/resolver.Resolver).checkGlueRR#1: lastret("middleware/resolver.validReferral")
+//@   assert at call (*middleware/resolver.Resolver).lookupV4Nss#1: lastret("middleware/resolver.validReferral")
+//@   assert at call (*middleware/resolver.Resolver).resolveWithCachedNameservers#1: lastret("middleware/resolver.validReferral")
+//@   assert at call (*internal/authority.Cache).SetUntil#1: lastret("middleware/resolver.validReferral")
+//@   assert at call middleware/resolver.validReferral#1: arg0 == nsInfo && arg1 == rs.servers.Zone && arg2 == rs.req.Question[0]
 //@
 //@ func (*Resolver).resolveWithCachedNameservers
 //@   abstract
@@ -44,3 +50,51 @@ package resolver
 //@   nosafety all
 //@   assert at call (*internal/dnsclient.Conn).ExchangeInterruptible#1: old(rs.work) != nil ==> calls("(*middleware.RecursionWorkLedger).Debit") + calls("(*middleware.RecursionWorkLedger).DebitBestEffort") == 1
 //@   assert at call (*middleware/resolver.Resolver).dialUDP#1: old(rs.work) != nil ==> calls("(*middleware.RecursionWorkLedger).Debit") + calls("(*middleware.RecursionWorkLedger).DebitBestEffort") == 1
+//@
+//@ # ---- C07: bailiwick.
+//@ # a referral is accepted only for a zone strictly below the zone that was asked and on the path to the query name
+//@ func progressingReferral
+//@   modifies nothing
+//@   ensures result == (isSub(authZone, referral) && !foldEq(canon(referral), canon(authZone)) && isSub(referral, qname))
+//@
+//@ func validReferral
+//@   modifies nothing
+//@   ensures result ==> info.nsRecord != nil && !info.incoherent && info.nsRecord.Hdr.Class == q.Qclass
+//@   ensures result ==> isSub(authZone, info.nsRecord.Hdr.Name) && !foldEq(canon(info.nsRecord.Hdr.Name), canon(authZone)) && isSub(info.nsRecord.Hdr.Name, q.Name)
+//@
+//@ # glue: an address is usable only if it is neither loopback nor one of this host's interface addresses
+//@ pred localIP(ip net.IP) := exists i int :: {localIPaddrs[i]} 0 <= i && i < len(localIPaddrs) && ipEqual(ip, localIPaddrs[i])
+//@ func isLocalIP
+//@   modifies nothing
+//@   loop 1 invariant forall j int :: {localIPaddrs[j]} 0 <= j && j < rangeidx ==> !ipEqual(ip, localIPaddrs[j])
+//@   ensures result == localIP(ip)
+//@
+//@ func usableAddr
+//@   modifies nothing
+//@   ensures result1 ==> addrFromSliceOK(ip) && result0 == addrUnmap(addrFromSlice(ip)) && !addrLoopback(result0) && !localIP(ip)
+//@
+//@ # glue is taken only from A/AAAA records whose owner shares at least `level` trailing labels with the query name
+//@ # (the delegating zone), is one of the referral's nameserver hosts, and carries a usable address
+//@ func appendUniqueAddr
+//@   modifies elems(values)
+//@
+//@ func (*Resolver).checkGlueRR
+//@   abstract
+//@   nosafety all pre
+//@   assert at call internal/authority.NewServerFromAddrPort#1: lastret("middleware/resolver.usableAddr", 1) && lastret("internal/dnsname.CompareSuffix") >= level && has(hosts, name)
+//@   assert at call internal/authority.NewServerFromAddrPort#2: lastret("middleware/resolver.usableAddr", 1) && lastret("internal/dnsname.CompareSuffix") >= level && has(hosts, name)
+//@   assert at call net/netip.AddrPortFrom#1: arg0 == lastret("middleware/resolver.usableAddr") && lastret("middleware/resolver.usableAddr", 1)
+//@   assert at call net/netip.AddrPortFrom#2: arg0 == lastret("middleware/resolver.usableAddr") && lastret("middleware/resolver.usableAddr", 1)
+//@   assert at call middleware/resolver.appendUniqueAddr#1: arg1 == lastret("middleware/resolver.usableAddr") && lastret("middleware/resolver.usableAddr", 1) && lastret("internal/dnsname.CompareSuffix") >= level && has(hosts, name)
+//@   assert at call middleware/resolver.appendUniqueAddr#2: arg1 == lastret("middleware/resolver.usableAddr") && lastret("middleware/resolver.usableAddr", 1) && lastret("internal/dnsname.CompareSuffix") >= level && has(hosts, name)
+//@
+//@ # authority and additional sections of an upstream reply are not relayed with a positive answer:
+//@ # the authority section is emptied, the additional section keeps at most the request's own OPT
+//@ func (*Resolver).clearAdditional
+//@   requires resp != nil && req != nil
+//@   ensures result == resp && len(resp.Ns) == 0
+//@   ensures (len(extra) == 0 || !old(extra[0])) ==> len(resp.Extra) <= 1 && (len(resp.Extra) == 1 ==> dyntype(resp.Extra[0], *dns.OPT) && as(resp.Extra[0], *dns.OPT) == msgOPT(req) && msgOPT(req) != nil)
+//@
+//@ func (*Resolver).filterAuthorityRecords
+//@   loop 1 invariant forall j int :: {filtered[j]} 0 <= j && j < len(filtered) ==> dyntype(filtered[j], *dns.SOA) || dyntype(filtered[j], *dns.NSEC) || dyntype(filtered[j], *dns.NSEC3) || dyntype(filtered[j], *dns.RRSIG)
+//@   ensures forall j int :: {result[j]} 0 <= j && j < len(result) ==> dyntype(result[j], *dns.SOA) || dyntype(result[j], *dns.NSEC) || dyntype(result[j], *dns.NSEC3) || dyntype(result[j], *dns.RRSIG)
